@@ -72,7 +72,7 @@ func runPair(h *core.History, cfgRef, cfgAlt world.SessCfg, po pairOpts, o *core
 			continue
 		}
 		asp := diffAspect(&a, &b)
-		if asp == "" && po.cmpEnv && (a.RandCalls != b.RandCalls || a.NowCalls != b.NowCalls) {
+		if asp == "" && po.cmpEnv && (a.RandCalls != b.RandCalls || a.NowCalls != b.NowCalls || a.SleepCalls != b.SleepCalls) {
 			asp = "envcalls"
 		}
 		if asp != "" && o.Viol == nil {
@@ -84,8 +84,8 @@ func runPair(h *core.History, cfgRef, cfgAlt world.SessCfg, po pairOpts, o *core
 				Oracle: "config-equivalence",
 				Event:  i,
 				Sig:    sig,
-				Detail: fmt.Sprintf("input #%d %q: reference config -> %s rand=%d now=%d ; other config -> %s rand=%d now=%d errs=%v / %v",
-					i, trunc(src, 300), a.Key(), a.RandCalls, a.NowCalls, b.Key(), b.RandCalls, b.NowCalls, truncAll(a.Errs), truncAll(b.Errs)),
+				Detail: fmt.Sprintf("input #%d %q: reference config -> %s rand=%d now=%d sleep=%d ; other config -> %s rand=%d now=%d sleep=%d errs=%v / %v",
+					i, trunc(src, 300), a.Key(), a.RandCalls, a.NowCalls, a.SleepCalls, b.Key(), b.RandCalls, b.NowCalls, b.SleepCalls, truncAll(a.Errs), truncAll(b.Errs)),
 			}
 			break
 		}
